@@ -500,6 +500,14 @@ impl TcpSys {
             return Err(Violation::new("addr", "client stream peer_addr/local_addr wrong".into()));
         }
         drop(l);
+        self.check_caps()?;
+        Ok(())
+    }
+
+    /// queue lengths against the configured caps (netstat view); also called between the
+    /// kernel's ingress and the applications' reaction, when a buffer is at its fullest
+    fn check_caps(&self) -> Result<(), Violation> {
+        let cfg = &self.cfg;
         if cfg.check_caps {
             for ip in &self.host_ips {
                 let ns = turmoil_net::netstat(*ip);
@@ -635,6 +643,7 @@ impl TcpSys {
         let p = self.wire.take(i);
         self.on_deliver(&p.pkt);
         self.guard.deliver(p.pkt);
+        self.check_caps()?;
         self.run_apps()
     }
 
